@@ -118,6 +118,18 @@ def run_program(c, rec):
     require(close(got, full, 1e-9),
             f"log-density of the {kind} obtained by conditioning differs from the joint log-density at the complete assignment",
             got=got, joint=full, calls=calls, free=free)
+    # object life cycle: a shallow and a deep copy of the reduced object (and of the joint) are the same distribution, and making
+    # them leaves the originals as they were
+    import copy as _copy
+    for label, maker in (("copy.copy", _copy.copy), ("copy.deepcopy", _copy.deepcopy)):
+        for what, o, args, ref in ((kind, obj, {n: allvals[n] for n in pn}, got), ("joint", J, dict(allvals), full)):
+            refused, dup = refuses(lambda: maker(o))
+            if refused:
+                rec.count(f"{label}_refused:{what}")
+                continue
+            gd = float(np.asarray(must(lambda: dup.logd(**args), f"evaluating a {label} of the {what}"), dtype=float).reshape(-1)[0])
+            require(close(gd, ref, 1e-12), f"a {label} of the {what} evaluates to a different log-density than the object it was copied from",
+                    copy_value=gd, original_value=ref)
     # a different route: everything in one keyword call
     if len(calls) > 1:
         obj1 = J(**{n: allvals[n] for n in c["fixed_order"]})
